@@ -65,11 +65,24 @@ class Exec:
         self.bound = 0  # depth of enclosing comprehensions / map loops
         self.known = []  # path conditions (value, polarity) of the branch being executed
         self.attrs = {}  # (value, attribute name) -> value: what the caller fixes about its symbols (e.g. the rank of x.shape)
+        self.fresh = set()  # names of constructors whose every evaluation is a distinct object (RandomState, ..): tagged #id=n
+        self.fresh_count = [0]
         self.const_fill = False  # read `[c] * len(xs)` as `[c for _ in xs]` (off where the slots are then written by index in a loop)
         self.callhooks = {}  # function value -> f(args, kwargs) -> value or None: semantics the caller gives to an external helper
         self.probes = []  # (line, path conditions, iterable, locals after one generic iteration) of loops that end a path
         self.watch = {}  # function / method name -> list of (path conditions, args, kwargs) of every call met
         self.funcs = {n.name: n for n in tree.body if isinstance(n, ast.FunctionDef)}
+        # module-level constants: NAME = <number or string literal> (assigned once)
+        self.consts = {}
+        seen = {}
+        for n in tree.body:
+            if isinstance(n, (ast.Assign, ast.AnnAssign)):
+                for t in (n.targets if isinstance(n, ast.Assign) else [n.target]):
+                    if isinstance(t, ast.Name):
+                        seen[t.id] = seen.get(t.id, 0) + 1
+                        if isinstance(n.value, ast.Constant) and isinstance(n.value.value, (int, float, str)) and not isinstance(n.value.value, bool):
+                            self.consts[t.id] = ("const", n.value.value)
+        self.consts = {k: v for k, v in self.consts.items() if seen.get(k) == 1}
         self.classes = {n.name: n for n in tree.body if isinstance(n, ast.ClassDef)}
 
     # ---------------------------------------------------------------------------------------- helpers
@@ -103,6 +116,8 @@ class Exec:
         if isinstance(node, ast.Name):
             if node.id in env:
                 return env[node.id]
+            if node.id in self.consts:
+                return self.consts[node.id]
             return ("sym", node.id)
         if isinstance(node, ast.Attribute):
             obj = self.ev(node.value, env)
@@ -216,6 +231,8 @@ class Exec:
         return c
 
     def branch(self, c, then_fn, else_fn):
+        if c[0] == "un" and c[1] == "not":  # canonical polarity: `if not c: A else: B` is `if c: B else: A`
+            return self.branch(c[2], else_fn, then_fn)
         # a path that leaves the subset becomes a ("stuck", reason) leaf, so that the other paths are still explored;
         # run_function rejects trees with such leaves unless asked not to
         self.known.append((c, True))
@@ -393,6 +410,9 @@ class Exec:
                 return self.inline_call(fn, selfv, owner, args, kwargs, node)
             except Untranslatable:
                 pass  # a helper outside the subset stays a call
+        if wname in self.fresh:
+            self.fresh_count[0] += 1
+            kwargs = kwargs + (("#id", const(self.fresh_count[0])),)
         return ("call", f, args, kwargs)
 
     def resolve(self, f):
@@ -473,6 +493,7 @@ class Exec:
         sub.probes = self.probes
         sub.callhooks = self.callhooks
         sub.const_fill = self.const_fill
+        sub.fresh, sub.fresh_count = self.fresh, self.fresh_count
         tree = sub.block(strip_doc(fn.body), env, lambda e: ("ret", NONE))
         return self.tree_value(tree, node)
 
@@ -796,6 +817,45 @@ def watch_calls(tree, path, qualname, names, opaque=(), inline=None):
     return ex.watch, stopped
 
 
+def render(tree, ind=0):
+    """Canonical text of an outcome tree (what a function does, free of the names and statement forms of its source)."""
+    pad = "  " * ind
+    if tree[0] == "if":
+        return "%sif %s:\n%s\n%selse:\n%s" % (pad, show(tree[1]), render(tree[2], ind + 1), pad, render(tree[3], ind + 1))
+    if tree[0] == "do":
+        return "%sdo %s\n%s" % (pad, show(tree[1]), render(tree[2], ind))
+    if tree[0] == "ret":
+        return "%sreturn %s" % (pad, show(tree[1]))
+    if tree[0] == "raise":
+        return "%sraise %s" % (pad, tree[1])
+    return "%s%s" % (pad, tree[0])
+
+
+def alpha_source(fn):
+    """Source text of a function body with its local variables renamed in order of first binding (v0, v1, ..), without
+    docstring: for the few functions that are pinned as text (generators with try / finally), so that renaming a local
+    or editing the docstring does not matter."""
+    params = {a.arg for a in fn.args.posonlyargs + fn.args.args + fn.args.kwonlyargs}
+    order = []
+    for n in ast.walk(fn):
+        if isinstance(n, ast.Name) and isinstance(n.ctx, ast.Store) and n.id not in params and n.id not in order:
+            order.append((getattr(n, "lineno", 0), getattr(n, "col_offset", 0), n.id))
+    names = []
+    for _l, _c, nm in sorted(order):
+        if nm not in names:
+            names.append(nm)
+    table = {nm: "v%d" % i for i, nm in enumerate(names)}
+
+    class R(ast.NodeTransformer):
+        def visit_Name(self, node):
+            return ast.copy_location(ast.Name(id=table.get(node.id, node.id), ctx=node.ctx), node)
+
+    import copy
+
+    body = [R().visit(copy.deepcopy(st)) for st in strip_doc(fn.body)]
+    return "\n".join(ast.unparse(st) for st in body)
+
+
 def find_nodes(v, pred, acc=None):
     """All sub-values of a value tree (or of a dict / list of them) satisfying pred."""
     acc = [] if acc is None else acc
@@ -812,7 +872,7 @@ def find_nodes(v, pred, acc=None):
     return acc
 
 
-def run_function(tree, path, qualname, opaque=(), inline=None, args=None, max_depth=4, allow_stuck=False, attrs=None, assume=(), callhooks=None, const_fill=False):
+def run_function(tree, path, qualname, opaque=(), inline=None, args=None, max_depth=4, allow_stuck=False, attrs=None, assume=(), callhooks=None, const_fill=False, fresh=()):
     """Outcome tree of `func` / `Class.method` with its parameters as symbols (`args` may bind some to given values)."""
     parts = qualname.split(".")
     cls = parts[0] if len(parts) == 2 else None
@@ -829,6 +889,7 @@ def run_function(tree, path, qualname, opaque=(), inline=None, args=None, max_de
     ex.attrs = dict(attrs or {})
     ex.callhooks = dict(callhooks or {})
     ex.const_fill = const_fill
+    ex.fresh = set(fresh)
     ex.known = list(assume)
     env = {}
     for a in node.args.posonlyargs + node.args.args + node.args.kwonlyargs:
